@@ -18,6 +18,8 @@ import os
 import shutil
 import types
 import typing
+
+import numpy as np
 from pathlib import Path
 
 import z3
@@ -137,7 +139,9 @@ def version_sweep():
 
 
 # ---- relocation --------------------------------------------------------------------------------
-TARGETS = ["moved", "deep/er/nested", "mit blank", "ünï-çødé-データ", "rel:sub/dir", "copy:cp", "relup:../elsewhere/up there"]
+TARGETS = ["moved", "deep/er/nested", "mit blank", "ünï-çødé-データ", "rel:sub/dir", "copy:cp", "relup:../elsewhere/up there",
+           # a directory whose name starts with '~' but names no user, reached by a relative path (no home expansion applies)
+           "rel:~ archive ü/nested dir", "~moved 2024/ds"]
 
 
 def _fingerprint(d):
@@ -250,6 +254,38 @@ def roundtrip_case(c):
             problems.append(f"description differs after reopen for {c['compression']}/{c['shard_file_type']}/{c['hashes'][:2]}")
         if d2.dataset_structure.hash_checksum_algorithms != tuple(c["hashes"]):
             problems.append("algorithm tuple changed")
+        # the writer amends the description of the existing dataset (dataset and attribute level) and saves it: a later open
+        # reconstructs the amended description, whether or not examples were written in that session
+        for how in ("write_config", "empty-filler-session", "filler-session"):
+            if how == "filler-session":
+                from sedpack.io.shard.shard_writer_flatbuffer import ShardWriterFlatBuffer
+                if c["shard_file_type"] != "fb" or c["compression"] not in ShardWriterFlatBuffer.supported_compressions():
+                    continue  # tfrec needs the TF runtime; the description code is format independent
+            try:
+                w = Dataset(tmp / "ds")
+                m2 = w.metadata.model_copy(deep=True)
+                m2.description = f"amended ✓ {how}"
+                m2.custom_metadata = {"stage": how, "review": {"by": "Žofie", "score": 0.75, "issues": [], "final": False, "none": None}}
+                w.metadata = m2
+                w.dataset_structure.saved_data_description[0].custom_metadata = {"unit": "µV", "scale": [1, 1000], "how": how}
+                held = w._dataset_info.model_dump(mode="json")
+                if how == "write_config":
+                    w.write_config(updated_infos=[])
+                elif how == "empty-filler-session":
+                    with w.filler():
+                        pass
+                else:
+                    with w.filler() as f:
+                        f.write_example(values={"ä b": np.array([1, 2], np.int32), "a": np.array([3, 4], np.int32)}, split="train")
+                    held = w._dataset_info.model_dump(mode="json")
+                got = Dataset(tmp / "ds")._dataset_info.model_dump(mode="json")
+                if got != held:
+                    diff = [k for k in ("metadata", "dataset_structure", "splits") if got.get(k) != held.get(k)]
+                    problems.append(f"{c['compression']}/{c['shard_file_type']}: description amended and saved through {how}: a fresh open "
+                                    f"does not reconstruct what the writer held (differs in {diff}; on disk description "
+                                    f"{got['metadata'].get('description')!r})")
+            except Exception as exc:  # noqa: BLE001
+                problems.append(f"{c['compression']}/{c['shard_file_type']}: amending through {how} raised {type(exc).__name__}: {str(exc)[:100]}")
     return problems
 
 
